@@ -103,6 +103,7 @@ let oracle (toks : string list) (obs : string) : (string * bool) list =
       | ("video" | "audio") :: _ :: "1" :: _ -> n + 1 | _ -> n) 0 ops in
   let marked = List.length (List.filter fst pk) in
   let checks = [ "C18.droppable_only_when_asked", marked <= asked_drop ] in
+  let checks = (match ack_oracle ops (J_server.parse_obs obs) with Some b -> ("C17.ack_exactly_when_due", b) :: checks | None -> checks) in
   if J_server.has_failed_call obs then checks
   else
     checks @ [ "C18.decodable", decodable pk (fun _ _ -> true);
